@@ -793,11 +793,11 @@ SITES = {
 
 
 def run(prop, mir, src, ob, tier="quick"):
-    import mirblocks, mirflow, mirpaths, mirload, mirquery, mirorder, mirparse
+    import mirblocks, mirflow, mirpaths, mirload, mirquery, mirorder, mirparse, mirgen
     a = Agg(mir, src, ob, tier)
     for s in SITES.get(prop, []):
         getattr(a, s)()
-    for f in mirblocks.SITES.get(prop, []) + mirflow.SITES.get(prop, []) + mirpaths.SITES.get(prop, []) + mirload.SITES.get(prop, []) + mirquery.SITES.get(prop, []) + mirorder.SITES.get(prop, []) + mirparse.SITES.get(prop, []):
+    for f in mirblocks.SITES.get(prop, []) + mirflow.SITES.get(prop, []) + mirpaths.SITES.get(prop, []) + mirload.SITES.get(prop, []) + mirquery.SITES.get(prop, []) + mirorder.SITES.get(prop, []) + mirparse.SITES.get(prop, []) + mirgen.SITES.get(prop, []):
         try:
             f(a)
         except Untranslatable as e:
@@ -808,6 +808,6 @@ def run(prop, mir, src, ob, tier="quick"):
 
 
 def has_sites(prop):
-    import mirblocks, mirflow, mirpaths, mirload, mirquery, mirorder, mirparse
-    return (prop in mirparse.SITES or prop in SITES or prop in mirblocks.SITES or prop in mirflow.SITES or prop in mirpaths.SITES or prop in mirload.SITES
+    import mirblocks, mirflow, mirpaths, mirload, mirquery, mirorder, mirparse, mirgen
+    return (prop in mirgen.SITES or prop in mirparse.SITES or prop in SITES or prop in mirblocks.SITES or prop in mirflow.SITES or prop in mirpaths.SITES or prop in mirload.SITES
             or prop in mirquery.SITES or prop in mirorder.SITES)
